@@ -709,7 +709,7 @@ func ruleLPOffload(r *Run) {
 		if callIs(c, modPath+"/"+enginePkg, "BuildPipeline") {
 			found = true
 			arg := c.Common().Args[0]
-			if prm, ok := originValue(arg).(*ssa.Parameter); ok && prm.Parent() == sl {
+			if prm, ok := originValueIn(arg, funcGroup(sl)).(*ssa.Parameter); ok && prm.Parent() == sl {
 				o.OK("BuildPipeline(stages...)").At(r.pos(c.Pos()))
 			} else {
 				o.Fail(r.pos(c.Pos()), "BuildPipeline is given %s, not the whole stages parameter", describe(arg, 0))
